@@ -153,15 +153,24 @@ fn handle_put<R: Read, W: Write>(
         std::io::copy(&mut r.take(len), &mut std::io::sink())?;
         return write_frame(w, &Response::Error("bad path".into()));
     };
-    if let Some(p) = dst.parent() {
-        std::fs::create_dir_all(p)?;
-    }
     let tmp = tmp_of(&dst);
+    // A path that cannot be staged (a component of it is a file here, ...) fails this
+    // one request, not the session: drain the content to stay in step, then say so.
+    let staged = dst
+        .parent()
+        .map_or(Ok(()), std::fs::create_dir_all)
+        .and_then(|()| std::fs::File::create(&tmp));
+    let mut tf = match staged {
+        Ok(tf) => tf,
+        Err(e) => {
+            std::io::copy(&mut r.take(len), &mut std::io::sink())?;
+            return write_frame(w, &Response::Error(format!("cannot stage: {e}")));
+        }
+    };
     // Stream exactly `len` bytes to the temp file + hash them (never buffer whole).
     let mut hasher = blake3::Hasher::new();
     let mut received: u64 = 0;
     {
-        let mut tf = std::fs::File::create(&tmp)?;
         let mut limited = r.take(len);
         let mut buf = vec![0u8; 256 * 1024];
         loop {
@@ -175,6 +184,7 @@ fn handle_put<R: Read, W: Write>(
         }
         tf.sync_all()?;
     }
+    drop(tf);
     // The input ended before `len` bytes arrived: whatever the prefix hashes to, it
     // is not the write the client declared.
     if received != len {
